@@ -520,7 +520,9 @@ func spec_direct(u *gengotypes.Universe, q string) bool { return gengotypes.Spec
 //@   effects
 //@   ensures len(spec_fx()) >= len(old(spec_fx())) && eq(spec_fx()[:len(old(spec_fx()))], old(spec_fx()))
 //@   ensures !c.args.All ==> forall i int :: len(old(spec_fx())) <= i && i < len(spec_fx()) ==> spec_isPkgEffect(spec_fx()[i], c.universe, c.args.OutputFileBaseName, false)
-//@   ensures c.args.All ==> exists n int :: len(old(spec_fx())) <= n && n <= len(spec_fx()) && (forall i int :: len(old(spec_fx())) <= i && i < n ==> spec_isPkgEffect(spec_fx()[i], c.universe, c.args.OutputFileBaseName, true)) && (forall i int :: n <= i && i < len(spec_fx()) ==> spec_fx()[i].Path == filepath.Join(c.universe.SumFile().Dir, "gengo.sum"))
+//@   ensures c.args.All ==> forall i int :: len(old(spec_fx())) <= i && i < len(spec_fx()) ==> spec_isPkgEffect(spec_fx()[i], c.universe, c.args.OutputFileBaseName, true) || spec_fx()[i].Path == filepath.Join(c.universe.SumFile().Dir, "gengo.sum")
+//@   ensures c.args.All ==> forall i int, j int :: len(old(spec_fx())) <= i && i < j && j < len(spec_fx()) && !spec_isPkgEffect(spec_fx()[i], c.universe, c.args.OutputFileBaseName, true) ==> spec_fx()[j].Path == filepath.Join(c.universe.SumFile().Dir, "gengo.sum")
+//@   note the two clauses above say: the run's effects are a block of package effects followed by a block of effects on <module>/gengo.sum (no package effect after the first non-package effect)
 //@   ensures len(spec_calls()) >= len(old(spec_calls())) && eq(spec_calls()[:len(old(spec_calls()))], old(spec_calls()))
 //@   ensures forall i int :: len(old(spec_calls())) <= i && i < len(spec_calls()) && spec_callFailed(spec_calls()[i]) ==> result != nil && i == len(spec_calls())-1 && (forall j int :: len(old(spec_fx())) <= j && j < len(spec_fx()) ==> spec_isPkgEffect(spec_fx()[j], c.universe, c.args.OutputFileBaseName, c.args.All))
 //@   note the second clause: when a generator or deferred callback failed, Execute returns an error, runs no further user code, and every effect of the run is a package effect: gengo.sum is NOT rewritten (Save is not reached)
@@ -570,6 +572,7 @@ var _ namer.ImportTracker
 func spec_old[T any](v T) T                             { return v }
 func spec_entry[T any](v T) T                           { return v }
 func spec_has[K comparable, V any](m map[K]V, k K) bool { _, ok := m[k]; return ok }
+func spec_elem[T comparable](x T, s []T) bool           { for _, y := range s { if y == x { return true } }; return false }
 func spec_implies(a, b bool) bool                       { return !a || b }
 func spec_iff(a, b bool) bool                           { return a == b }
 func spec_eq[T any](a, b T) bool                        { panic("ghost: structural equality") }
